@@ -274,7 +274,7 @@ func c07ChunkSizes(r *rand.Rand) int {
 
 func c07Run(c *fw.Ctx) error {
 	pms := allPolModes()
-	n := int64(c.Pick(3000, 600000))
+	n := int64(c.Pick(3000, 150000))
 	for i := int64(0); i < n; i++ {
 		if int(i%int64(c.NBatch)) != c.Batch || i < c.Resume {
 			continue
@@ -782,7 +782,7 @@ func init() {
 				Rule:        "in-process layer: every policy x applicable mode x chunk sizes (dense near 8192, all residues, powers of two, random to 2^16+8192) x body lengths (k*max-1, k*max, k*max+1 for k=1..4, small, random) x first sequence numbers (incl. just below the wrap) through the real newMessage/EncodeChunks/signAndEncrypt and, on a mirrored instance, the real verifyAndDecrypt/mergeChunks/DecodeService; per chunk: size <= negotiated, MessageSize = length, C...F flags, request id, sequence +1; reassembly byte-equal; the end-to-end layer over TCP is part of C06/C12/C20; distinct = distinct (policy, mode, chunk size, body length)",
 				Assumptions: []string{"EncodeAndSecure in the hook file repeats the sender loop of writeMessageChunks without the socket write"}}
 			if tier == "thorough" {
-				p.Batches, p.TimeoutS, p.MinNontrivial = 16, 2400, 300000
+				p.Batches, p.TimeoutS, p.MinNontrivial = 16, 2400, 100000
 			}
 			return p
 		},
